@@ -56,7 +56,9 @@ def _decode_message(data: bytes) -> Message:
 
     msg = Message(code=code, _token=token)
 
-    msg.payload = msg.opt.decode(data[tokenoffset + tkl :])
+    msg.payload = msg.opt.decode(
+        data[tokenoffset + tkl :], opaque=msg.code.is_signalling()
+    )
     msg.direction = Direction.INCOMING
 
     return msg
